@@ -145,7 +145,18 @@ def sat_kwargs(built: Built, cfg):
     prof = built.prof
     if voters is not None:
         prof = core.build_profile(case, built.inst, built.projs, multi=built.multi, ballots=[case.ballots[i] for i in voters])
-    kw = dict(sat_profile=prof.as_sat_profile(core.sat_class(cfg["sp_sat"])))
+    if cfg.get("sp_repr") == "other":
+        # the satisfaction profile comes from the OTHER representation of the same electorate (a list profile handed over together
+        # with a SatisfactionMultiProfile, or the reverse): the voters are those of the satisfaction profile, each with ITS multiplicity
+        prof = core.build_profile(case, built.inst, built.projs, multi=not built.multi)
+    if cfg.get("sp_repr") == "direct-multi":
+        # a satisfaction MULTIprofile built directly from the LIST profile (its measures point at the list profile)
+        from pabutools.election import SatisfactionMultiProfile
+
+        lst = core.build_profile(case, built.inst, built.projs, multi=False)
+        kw = dict(sat_profile=SatisfactionMultiProfile(instance=built.inst, profile=lst, sat_class=core.sat_class(cfg["sp_sat"])))
+    else:
+        kw = dict(sat_profile=prof.as_sat_profile(core.sat_class(cfg["sp_sat"])))
     if not cfg.get("sp_only"):
         kw["sat_class"] = core.sat_class(cfg["sat"])
     return kw
